@@ -87,7 +87,7 @@ func genWellFormedPacket(t *rapid.T, afcChoices []int, minAF int) *ref.Packet {
 	p.AFC = rapid.SampledFrom(afcChoices).Draw(t, "afc")
 	switch p.AFC {
 	case 1:
-		p.Payload = genBytes(t, 184, 184, "payload")
+		p.Payload = genPayloadBytes(t, 184, "payload")
 	case 2:
 		p.AF = &ref.AF{Len: 183}
 		genAFContent(t, p.AF)
@@ -107,7 +107,7 @@ func genWellFormedPacket(t *rapid.T, afcChoices []int, minAF int) *ref.Packet {
 		if l > 0 {
 			genAFContent(t, p.AF)
 		}
-		p.Payload = genBytes(t, 183-l, 183-l, "payload")
+		p.Payload = genPayloadBytes(t, 183-l, "payload")
 	}
 	return p
 }
